@@ -47,10 +47,10 @@ def sortNat : List Nat → List Nat
   | x :: t => insertNat x (sortNat t)
 
 /-- `nsec3IdentityKey` equality (owner, class, algorithm, flags, iterations,
-salt, next, sorted types). -/
+salt, next, sorted types; the owner hash is a function of the owner name). -/
 def sameIdentity (a b : Nsec3) : Bool :=
   a.owner == b.owner && a.cls == b.cls && a.alg == b.alg && a.flags == b.flags && a.iter == b.iter &&
-  a.salt == b.salt && a.next == b.next && sortNat a.types == sortNat b.types
+  a.salt == b.salt && a.next == b.next && sortNat a.types == sortNat b.types && a.ownerHash == b.ownerHash
 
 /-- `normalizeNSEC3Set`: semantic duplicates removed (first kept). -/
 def dedupe : List Nsec3 → List Nsec3 → List Nsec3
@@ -75,7 +75,7 @@ deriving Repr
 `ErrNSECMissingCoverage`): class set, owner exactly one label below the
 signer, hash label / NextDomain / salt decodable, hash length consistent. -/
 def recordOk (zone : Name) (r : Nsec3) : Bool :=
-  r.cls != 0 && r.owner.length == zone.length + 1 && zone.isPrefixOf r.owner &&
+  r.cls != 0 && (r.owner.length == zone.length + 1 && zone.isPrefixOf r.owner) &&
   (match r.ownerHash with | some h => r.hashLen == h.length | none => false) &&
   r.next.isSome && r.salt.isSome
 
@@ -99,11 +99,11 @@ def indexed3 (i : Nat) : List Nsec3 → List (Nat × Nsec3)
 def toEntry (p : Nat × Nsec3) : Entry3 :=
   { idx := p.1, ownerHash := p.2.ownerHash.getD [], nextHash := p.2.next.getD [], flags := p.2.flags, types := p.2.types }
 
-/-- `prepareNSEC3Set` with a signer: unusable records are skipped, then one
-class, one parameter tuple, owners bound to the signer, no two records at
-one owner hash; the ring is sorted by owner hash. -/
-def prepare (records : List Nsec3) (zone : Name) : Except Err Ring :=
-  let us := dedupe [] (records.filter usable)
+/-- the owner sits exactly one label below the signer. -/
+def ownerInZone (zone : Name) (r : Nsec3) : Bool := r.owner.length == zone.length + 1 && zone.isPrefixOf r.owner
+
+/-- the checks of `prepareNSEC3Set` over the usable, de-duplicated records. -/
+def prepareFrom (zone : Name) (us : List Nsec3) : Except Err Ring :=
   match us with
   | [] => .error .missing
   | f :: _ =>
@@ -111,6 +111,12 @@ def prepare (records : List Nsec3) (zone : Name) : Except Err Ring :=
     else if us.any (fun r => r.cls != f.cls || !sameParams r f) then .error .missing
     else if !hashesDistinct (us.map fun r => r.ownerHash.getD []) then .error .missing
     else .ok { zone := zone, cls := f.cls, entries := sortE (us.map fun r => toEntry (0, r)) }
+
+/-- `prepareNSEC3Set` with a signer: unusable records are skipped, then one
+class, one parameter tuple, owners bound to the signer, no two records at
+one owner hash; the ring is sorted by owner hash. -/
+def prepare (records : List Nsec3) (zone : Name) : Except Err Ring :=
+  prepareFrom zone (dedupe [] (records.filter usable))
 
 /-- `aggressiveNSEC3Covers` (strict interval of the hash circle). -/
 def covers3 (owner next h : Hash) : Bool :=
